@@ -2,4 +2,5 @@ SPECIFICATION Spec
 CONSTANTS MaxLen = 3
  Profile = "stepper"
  EnvSet = "headform"
+ ExtraCheck <- NoExtra
 CHECK_DEADLOCK FALSE
